@@ -748,3 +748,112 @@ Example nil_principal_never_satisfies :
   secure_handler out [Reqs [sq 0; sq 1]] None true = [AuthCalled 0 []; AuthCalled 1 []; Respond 401 0] /\
   secure_handler out [Reqs [sq 1; sq 0]] None true = [AuthCalled 1 []; AuthCalled 0 []; Respond 401 0].
 Proof. split; reflexivity. Qed.
+(* ---------- completeness: a satisfied alternative is found, whatever precedes it ---------- *)
+
+Lemma run_schemes_complete out l : forall lst,
+  forallb (fun s => accepts_with_principal (out (sname s) (sscopes s))) l = true ->
+  (l = [] -> exists q, lst = Some q) ->
+  exists t q, run_schemes out l lst false = (t, mk_ares true (Some q) None true).
+Proof.
+  induction l as [|s r IH]; intros lst F N.
+  - destruct (N eq_refl) as [q ->]. exists [], q. reflexivity.
+  - cbn [forallb] in F. apply andb_true_iff in F. destruct F as [F1 F2]. cbn [run_schemes].
+    destruct (out (sname s) (sscopes s)) as [|[p|]|]; try discriminate. cbn [orb].
+    destruct (IH (Some p) F2) as (t & q & R); [intros _; now exists p|]. rewrite R. eauto.
+Qed.
+
+Lemma auth_alt_complete out l :
+  satisfied out l = true -> exists t q, auth_alt out (Reqs l) = (t, mk_ares true (Some q) None true).
+Proof.
+  unfold satisfied. rewrite forallb_andb. intro H. apply andb_true_iff in H. destruct H as [N H].
+  apply andb_true_iff in H. destruct H as [Reg F]. cbn [auth_alt]. rewrite Reg.
+  apply run_schemes_complete; [exact F|]. intros ->. discriminate.
+Qed.
+
+Definition some_satisfied (out : oracle) (alts : list alt) : bool :=
+  existsb (fun a => match a with Reqs l => satisfied out l | Anon => false end) alts.
+
+Lemma auth_alts_from_complete out alts : forall lastErr anon route,
+  some_satisfied out alts = true ->
+  exists t res q, auth_alts_from out alts lastErr anon route = (t, res) /\ o_usr res = Some q /\ o_err res = None /\ o_applies res = true.
+Proof.
+  induction alts as [|a r IH]; intros lastErr anon route H; [discriminate|].
+  unfold some_satisfied in H. cbn [existsb] in H. cbn [auth_alts_from]. destruct a as [|l]; cbn [is_anon].
+  - cbn [orb] in H. apply IH. exact H.
+  - destruct (auth_alt out (Reqs l)) as [t1 res1] eqn:A1.
+    destruct (negb (a_applies res1) || is_some (a_err res1) || negb (is_some (a_usr res1))) eqn:C.
+    + destruct (satisfied out l) eqn:S.
+      * destruct (auth_alt_complete _ _ S) as (t & q & E). rewrite E in A1. injection A1 as <- <-. discriminate.
+      * cbn [orb] in H. destruct (IH (match a_err res1 with Some e => Some e | None => lastErr end) anon
+                                    (if a_set res1 then Some (Reqs l) else route) H) as (t' & res' & q & E & U & Er & Ap).
+        rewrite E. exists (t1 ++ t'), res', q. auto.
+    + apply orb_false_iff in C. destruct C as [C C3]. apply orb_false_iff in C. destruct C as [C1 C2].
+      destruct (a_usr res1) as [q|] eqn:U; [|discriminate]. destruct (a_err res1) eqn:Er; [discriminate|].
+      eexists _, _, q. split; [reflexivity|]. cbn. auto.
+Qed.
+
+(* without an anonymous alternative and with no authorizer, the handler runs exactly when some alternative is satisfied *)
+Definition ran (tr : list event) : bool := existsb is_handle tr.
+
+Theorem runs_iff_some_satisfied out alts :
+  alts <> [] -> allows_anon alts = false ->
+  ran (secure_handler out alts None true) = some_satisfied out alts.
+Proof.
+  intros N NA. destruct (some_satisfied out alts) eqn:S.
+  - destruct (auth_alts_from_complete out alts None None None S) as (t & res & q & E & U & Er & Ap).
+    unfold secure_handler. destruct alts as [|a0 r0]; [contradiction|]. cbv iota. remember (a0 :: r0) as al.
+    unfold authorize, auth_alts. rewrite E, U, Er, Ap. cbn [negb orb is_some andb]. rewrite andb_false_r.
+    destruct (o_route res) eqn:Rt; unfold ran; rewrite existsb_app; cbn; [apply orb_true_r|].
+    (* a nil route authenticator cannot happen *)
+    exfalso. pose proof (auth_alts_post out al t res E) as P. unfold or_post in P. rewrite Er, U in P.
+    destruct P as (_ & _ & l & _ & R' & _). congruence.
+  - destruct (ran (secure_handler out alts None true)) eqn:R; [|reflexivity]. exfalso.
+    unfold ran in R. apply existsb_exists in R. destruct R as (ev & Hev & Hh). destruct ev as [| | |p sc| |]; try discriminate.
+    pose proof (handler_runs_only_if_satisfied _ _ _ _ _ _ N Hev) as J. unfold justified in J. destruct p as [q|].
+    + destruct J as [(l & Hl & Sat & _) _]. apply satisfied_prop in Sat.
+      assert (T : some_satisfied out alts = true) by (apply existsb_exists; exists (Reqs l); now split). congruence.
+    + destruct J as (A & _). apply allows_anon_prop in A. congruence.
+Qed.
+
+Lemma satisfied_perm out l l' : Permutation l l' -> satisfied out l = satisfied out l'.
+Proof.
+  intro P. destruct (satisfied out l) eqn:A; destruct (satisfied out l') eqn:B; try reflexivity; exfalso.
+  - apply satisfied_prop in A. assert (X : fully_satisfied out l') by (eapply fully_satisfied_perm; [apply Permutation_sym; exact P|exact A]).
+    apply satisfied_prop in X. congruence.
+  - apply satisfied_prop in B. assert (X : fully_satisfied out l) by (eapply fully_satisfied_perm; [exact P|exact B]).
+    apply satisfied_prop in X. congruence.
+Qed.
+
+Lemma perm_invariants out alts alts' :
+  Forall2 alt_perm alts alts' ->
+  some_satisfied out alts = some_satisfied out alts' /\ allows_anon alts = allows_anon alts'.
+Proof.
+  induction 1 as [|a a' r r' P F IH]; [split; reflexivity|]. destruct IH as [IH1 IH2].
+  unfold some_satisfied, allows_anon in *. cbn [existsb]. rewrite IH1, IH2.
+  destruct a, a'; cbn in P; try contradiction; [split; reflexivity|].
+  rewrite (satisfied_perm _ _ _ P). split; reflexivity.
+Qed.
+
+(* Without an anonymous alternative and without an authorizer, whether the handler runs does not depend on the order in
+   which the schemes of the alternatives are evaluated. (With an anonymous alternative it can: see
+   anonymous_admission_depends_on_order; with an authorizer it can through the principal: principal_depends_on_order.) *)
+Theorem verdict_order_independent out alts alts' :
+  Forall2 alt_perm alts alts' -> alts <> [] -> allows_anon alts = false ->
+  ran (secure_handler out alts None true) = ran (secure_handler out alts' None true).
+Proof.
+  intros F N NA. destruct (perm_invariants out _ _ F) as [S A].
+  assert (N' : alts' <> []) by (intros ->; inversion F; subst; contradiction).
+  rewrite !runs_iff_some_satisfied; auto. congruence.
+Qed.
+
+(* the hypotheses of verdict_order_independent are met by ordinary structures, e.g. {s0,s1} OR {s2} in both orders *)
+Example verdict_order_independent_example :
+  let out := ex_out [(0, Acc (Some 1)); (1, NA); (2, Acc (Some 3))] in
+  let alts := [Reqs [sq 0; sq 1]; Reqs [sq 2]] in
+  let alts' := [Reqs [sq 1; sq 0]; Reqs [sq 2]] in
+  Forall2 alt_perm alts alts' /\ allows_anon alts = false /\
+  ran (secure_handler out alts None true) = true /\ ran (secure_handler out alts' None true) = true.
+Proof.
+  cbv zeta. split; [|repeat split; reflexivity].
+  constructor; [cbn; apply perm_swap|]. constructor; [cbn; apply Permutation_refl|constructor].
+Qed.
